@@ -64,7 +64,28 @@ func (simDriver) Open(name string) (driver.Conn, error) {
 	return &simConn{db: db}, nil
 }
 
-type simConn struct{ db *simDB }
+type simConn struct {
+	db      *simDB
+	inTx    bool
+	pending []sqlRow // rows inserted in the open transaction (visible to others at commit)
+}
+
+// simTx: transactions of the simulated database (read committed: pending inserts become visible
+// to other connections at commit, a rollback discards them).
+type simTx struct{ c *simConn }
+
+func (t simTx) Commit() error {
+	t.c.db.mu.Lock()
+	t.c.db.rows = append(t.c.db.rows, t.c.pending...)
+	t.c.db.mu.Unlock()
+	t.c.pending, t.c.inTx = nil, false
+	return nil
+}
+
+func (t simTx) Rollback() error {
+	t.c.pending, t.c.inTx = nil, false
+	return nil
+}
 
 func (c *simConn) Prepare(q string) (driver.Stmt, error) {
 	switch q {
@@ -74,7 +95,13 @@ func (c *simConn) Prepare(q string) (driver.Stmt, error) {
 	return nil, fmt.Errorf("simsql: syntax error near %q", q)
 }
 func (c *simConn) Close() error              { return nil }
-func (c *simConn) Begin() (driver.Tx, error) { return nil, errors.New("simsql: no transactions") }
+func (c *simConn) Begin() (driver.Tx, error) {
+	if c.inTx {
+		return nil, errors.New("simsql: transaction already open on this connection")
+	}
+	c.inTx = true
+	return simTx{c}, nil
+}
 
 type simStmt struct {
 	c *simConn
@@ -123,7 +150,11 @@ func (s *simStmt) Exec(args []driver.Value) (driver.Result, error) {
 				return nil, fmt.Errorf("simsql: column %d: unsupported value %T", 2+i, x)
 			}
 		}
-		db.rows = append(db.rows, r)
+		if s.c.inTx {
+			s.c.pending = append(s.c.pending, r)
+		} else {
+			db.rows = append(db.rows, r)
+		}
 		return driver.RowsAffected(1), nil
 	}
 	return nil, fmt.Errorf("simsql: %s is not an exec statement", s.q)
